@@ -7,7 +7,7 @@ of the property statement, written from RFC 7233's range grammar, not from the m
 import re, glob, os, shutil, tempfile, zlib, itertools
 from vlib import common as C
 
-DRIVERS = ['RangeM']   # model driver files this check runs: scopes translator failures to the tables they (and the proofs) import
+DRIVERS = ['RangeM', 'Serve']   # model driver files this check runs: scopes translator failures to the tables they (and the proofs) import
 TRUSTED = ['Rust std: str::split, str::trim (Unicode White_Space), str::parse::<u64>, u64::checked_sub (modelled in Rws.RangeM)',
            'file-ext 12.1.0 read_file_partially = seek + take(end-start+1) + read_to_end (modelled as drop/take on the contents)',
            'model abstraction: the request target resolves to a regular file (URL parsing, path joining, the symlink branch and I/O-error 500s are not modelled; the harness runs the real code over a plain file and over a symlink to it)',
@@ -202,8 +202,117 @@ def random_header(rng, L):
     elif k < 4: h = h + rng.choice(['=0-0', ',', ',,', '=', ' '])
     return h
 
+
+# ---------------------------------------------------------------- the answer ON THE WIRE (both server entry points)
+def _wire_parts(body, boundary):
+    """independent reader of the library's multipart/byteranges body: each part's length is taken from ITS Content-Range
+    (binary parts may hold anything, also the delimiter); returns [(s, e, size, bytes)] or a string saying what is wrong"""
+    delim = b'--' + boundary
+    pos, out = 0, []
+    while True:
+        if body[pos:pos + 2] == b'\r\n': pos += 2
+        if body[pos:pos + len(delim)] != delim: return f'no delimiter at offset {pos}: {body[pos:pos + 40]!r}'
+        pos += len(delim)
+        if pos == len(body) or body[pos:] in (b'--', b'--\r\n', b'\r\n'): return out
+        if body[pos:pos + 2] != b'\r\n': return f'delimiter not followed by CRLF at {pos}'
+        pos += 2
+        end = body.find(b'\r\n\r\n', pos)
+        if end < 0: return 'part without blank line'
+        hdr = body[pos:end].split(b'\r\n'); pos = end + 4
+        cr = [h for h in hdr if h.lower().startswith(b'content-range:')]
+        m = re.match(rb'^content-range:\s*bytes (\d+)-(\d+)/(\d+)\s*$', cr[0], re.I) if len(cr) == 1 else None
+        if not m: return f'part without a readable Content-Range: {hdr!r}'
+        a, b, size = int(m.group(1)), int(m.group(2)), int(m.group(3))
+        if b < a: return f'part labelled {a}-{b}'
+        out.append((a, b, size, body[pos:pos + (b - a + 1)])); pos += b - a + 1
+
+def wire_part(res, rng, tier):
+    from vlib import serve as S, servecheck as K
+    quick = tier == 'quick'
+    tree = S.gen_tree(rng, small=True)
+    cwd = tree.cwd
+    files = {'bin.dat': bytes((i * 7 + 128) % 256 for i in range(300)),                   # not UTF-8 anywhere
+             'mixed.bin': bytes(gen_byte(i) for i in range(8193)),
+             'utf8.txt': ('abc café xyz € 漢字 \U0001F600 end ' * 12).encode(),          # range bounds fall inside multi-byte characters
+             'ascii.txt': b'0123456789' * 30, 'one.bin': b'\xff', 'big.bin': bytes(gen_byte(i) for i in range(70001 if quick else 200001))}
+    for n, c in files.items(): tree.file(cwd + b'/' + n.encode(), c)
+    cases, metas = [], []
+    def add(name, header, method='GET'):
+        e = rng.choice(['proc', 'preq'])
+        cases.append(K.mk(tree, method, '/' + name, [('Range', header)], entry=e, alloc=10000, kind='wire-range')); metas.append((name, header, method))
+    for name, data in files.items():
+        L = len(data)
+        for i in range(12 if quick else 120):
+            k = rng.choice([1, 1, 2, 2, 3, 4])
+            specs = []
+            for _ in range(k):
+                a = rng.choice([0, 1, rng.below(L), rng.below(L), max(0, L - 2), L - 1]) if L else 0
+                b = min(L - 1, a + rng.choice([0, 1, 2, 3, 7, 15, 100, 8191, 8192, 65536])) if L else 0
+                specs.append(rng.choice([f'{a}-{b}', f'{a}-{b}', f'{a}-', f'-{min(L, rng.choice([1, 2, 5, 17]))}']))
+            add(name, 'bytes=' + rng.choice([',', ', ', ' , ']).join(specs))
+        # every 2-range split of a short prefix: a boundary at every byte offset (inside every multi-byte character)
+        for cut in range(1, min(L, 40)):
+            add(name, f'bytes=0-{cut - 1},{cut}-{min(L - 1, cut + 6)}')
+    results = K.run_batches([(tree, cases)], with_model=True)
+    for (c, r, il, ml), (name, header, method) in zip(results, metas):
+        res.evaluations += 1; res.programs += 1
+        res.distinct.add(hash(('wire', c.entry, c.raw)))
+        if il != ml: res.disagree(c.line[:300], il[:300], (ml or '')[:300], 'Range / Response.generate_response on the wire')
+        if r['head'].startswith(('panic', 'abort')): continue      # C04's finding
+        resp, why = K.parse_resp(r['writes'][0] if r['writes'] else b'')
+        if resp is None: continue                                    # framing: C05
+        data = files[name]; L = len(data)
+        want = strict_ranges(header, L)
+        res.count(f'wire {("multi" if want and len(want) > 1 else "single")} status {resp["status"]}')
+        if want is None or not want: continue     # malformed / unsatisfiable: the codec part judges 416-or-clamped
+        if resp['status'] != 206:
+            res.fail('wire-not-206', c.line[:300], f'status {resp["status"]}', None, f'C03: Range {header!r} lies inside {name} ({L} bytes) but the answer is {resp["status"]}'); continue
+        hd = {n.lower(): v for n, v in resp['headers']}
+        if len(want) == 1:
+            a, b = want[0]
+            if hd.get('content-range', '').strip() != f'bytes {a}-{b}/{L}' or resp['body'] != data[a:b + 1] or hd.get('content-length', '').strip() != str(b - a + 1):
+                res.fail('wire-single-range', c.line[:300], f'{hd.get("content-range")} len {hd.get("content-length")} body {len(resp["body"])}', None,
+                         f'C03: {name} Range {header!r}: the wire answer is not bytes {a}-{b}/{L} with exactly those {b - a + 1} bytes')
+        else:
+            ct = hd.get('content-type', '')
+            m = re.search(r'boundary=([^;\s]+)', ct)
+            parts = _wire_parts(resp['body'], m.group(1).strip('"').encode()) if m and ct.lower().startswith('multipart/byteranges') else f'Content-Type {ct!r}'
+            if isinstance(parts, str):
+                res.fail('wire-multipart-unreadable', c.line[:300], parts[:200], None, f'C03: {name} Range {header!r}: multipart/byteranges body cannot be read: {parts[:120]}'); continue
+            got = [(a, b, size, body) for a, b, size, body in parts]
+            exp = [(a, b, L, data[a:b + 1]) for a, b in want]
+            if got != exp:
+                k = next((i for i, (g, e) in enumerate(zip(got, exp)) if g != e), min(len(got), len(exp)))
+                res.fail('wire-multipart-part', c.line[:300], f'{len(got)} parts, first difference at part {k}', None,
+                         f'C03: {name} Range {header!r}: part {k} on the wire is not bytes {exp[k][0] if k < len(exp) else "?"}-{exp[k][1] if k < len(exp) else "?"}/{L} of the file with exactly those bytes')
+            # (the multipart answer carries no Content-Length: the property asks for one on single ranges only)
+
+def strict_ranges(header, L):
+    """RFC 7233 reading of `header` for a file of L bytes: list of (first, last) inside the file, [] when none is satisfiable,
+    None when the header is malformed"""
+    if not header.startswith('bytes='): return None
+    out = []
+    for sp in header[6:].split(','):
+        m = SPEC.match(sp)
+        if not m: return None
+        if m.group(1) is not None:
+            a, b = int(m.group(1)), int(m.group(2))
+            if b < a: return None
+            if a >= L: return []
+            out.append((a, min(b, L - 1)))
+        elif m.group(3) is not None:
+            a = int(m.group(3))
+            if a >= L: return []
+            out.append((a, L - 1))
+        else:
+            n = int(m.group(4))
+            if n == 0 or L == 0: return []
+            out.append((max(0, L - n), L - 1))
+    return out
+
 def run(res, tier, seed):
     rng = C.Rng(seed)
+    wire_part(res, rng.fork('wire'), tier)
     lines, meta = [], []
     def get(file_field, data, header, has=1, method='GET', kind='random'):
         lines.append('rangeget %s %s %d %s' % (file_field, C.hx(header), has, C.hx(method)))
